@@ -23,9 +23,17 @@ constructors: classes called through a hand-written, inherited or *synthesised* 
 (dataclass chains: fields added / removed / reordered / re-formed, defaults, ``field()`` options,
 ``KW_ONLY``, ``kw_only=``, ``InitVar``, ``ClassVar``, inherited and undecorated subclasses).  The
 oracle is unchanged: ``Cls(...)`` really binds or raises on the executed old / new code.
+The loaded workload also varies *where* a compared function lives and *how* it becomes public:
+definitions inside blocks CPython really executes (``if`` / ``else`` / ``try`` / ``except`` /
+``finally`` at module or class level, every spelling of the type-checking guard, its negation and
+compound conditions containing it, version tests), in private or public submodules of a package,
+re-exported through explicit imports, wildcard imports (source with or without ``__all__``) and
+chains of them; the packages are really imported by CPython's import system.
 """
 from __future__ import annotations
 
+import ast
+import importlib
 import inspect
 import itertools
 import os
@@ -61,7 +69,14 @@ RULE = ("all legal signatures over parameter names {a,b} (quick) / {a,b,c} (thor
         "names, re-declarations without value, init=False decorators, several bases - are not generated) and 45% placed "
         "hierarchies (20% of them with __init__ as the method); each case gets a load mode among {visit (not for dataclasses), "
         "fresh, shared-ext, shared-ext-rev, shared-loader, check-api, check-cli (the last two for single-module cases, a fixed "
-        "number per shard)}, a file or package layout and resolve_aliases or not")
+        "number per shard)}, a file or package layout and resolve_aliases or not. 30% of the loaded cases are packages m with 1..3 "
+        "submodules (85% underscore-named) in a re-export chain (per hop: wildcard or explicit import, relative or absolute, source "
+        "module with or without __all__, underscore names listed or not), holding 1..3 of {function g, class K with method f, "
+        "function h, function _p} each defined in a random module of the chain inside one of 18 block shapes that CPython executes "
+        "(none, if True, if not TYPE_CHECKING / typing.TYPE_CHECKING / t.TYPE_CHECKING, else-branch of a type-checking guard, "
+        "sys.version_info tests with or without else, or/and-compounds with the guard on either side, try/except ImportError in "
+        "both directions, try/finally, nested ifs; for K around the class or around the method); blocks that do not run never "
+        "define a compared name; old/new differ by signature (mostly call-breaking) and 15% also by block shape")
 LEVEL_TEXT = ("For every pair of the enumerated signature space the set of calls CPython binds to the old but not the new "
               "definition is computed with CPython's binder; the real find_breaking_changes must report >=1 breakage "
               "whenever that set is non-empty, must name every moved / default-changed / newly-required parameter, must "
@@ -89,7 +104,11 @@ REQUIRED_COUNTERS = ["pairs_with_broken_call", "identical_pairs_silent", "moved_
                      "load_mode_visit_paths_with_broken_call", "load_mode_fresh_paths_with_broken_call",
                      "load_mode_shared-ext_paths_with_broken_call", "load_mode_shared-ext-rev_paths_with_broken_call",
                      "load_mode_shared-loader_paths_with_broken_call", "load_mode_check-api_paths_with_broken_call",
-                     "load_mode_check-cli_paths_with_broken_call", "check_entry_point_runs", "check_cli_runs"]
+                     "load_mode_check-cli_paths_with_broken_call", "check_entry_point_runs", "check_cli_runs",
+                     "paths_defined_in_conditional_block_with_broken_call", "paths_defined_under_type_checking_condition_with_broken_call",
+                     "paths_defined_under_compound_type_checking_condition_with_broken_call",
+                     "paths_through_wildcard_reexport_with_broken_call", "paths_conditional_and_wildcard_reexported_with_broken_call",
+                     "paths_defined_in_private_submodule_with_broken_call"]
 EXHAUSTIVE = {"quick": True, "thorough": True}
 ASSUMPTIONS = ["a call is 'broken' iff really calling the old definition succeeds and the new one raises TypeError at binding (inspect.Signature.bind is the cross-check; where it disagrees the real call wins)",
                "call shapes limited to 0..3 positional arguments and keyword subsets of {a,b,c,zz}",
@@ -99,7 +118,10 @@ ASSUMPTIONS = ["a call is 'broken' iff really calling the old definition succeed
                "flavours (instance/static/class method) are the same in both versions",
                "loaded workload: dataclass shapes are restricted to the region C18 shows to be synthesised like CPython on the pinned "
                "tree (C18's known findings are not reused as explanations here: any discrepancy is a violation); the check-api mode "
-               "observes the breakages through a pass-through wrapper installed on _griffe.cli.find_breaking_changes for the call"]
+               "observes the breakages through a pass-through wrapper installed on _griffe.cli.find_breaking_changes for the call",
+               "public names of a module without __all__: every underscore-free name of its executed namespace that no explicit import "
+               "statement bound (own definitions and what `from x import *` put there); submodules reachable through underscore-free "
+               "names are public whether or not something imports them; a name is never defined in a block that does not run"]
 
 PO, PK, VP, KO, VK = "po", "pk", "vp", "ko", "vk"
 KW_NAMES = ["a", "b", "c", "zz"]
@@ -336,11 +358,52 @@ def gen_placed(rng: random.Random, sigs, breaking: list[list[int]]) -> dict:  # 
 
 def main_name(files: dict[str, str]) -> str:
     """The module whose public API is compared (``m``, or ``m_a`` / ``m_b`` when both versions share one loader)."""
-    return next(k for k in files if k.startswith(MAIN))
+    return next(k for k in files if k.startswith(MAIN) and "." not in k)
+
+
+def _rel_path(name: str, files: dict[str, str], layout: str) -> str:
+    package = any(k.startswith(name + ".") for k in files) or (layout == "package" and "." not in name)
+    return name.replace(".", "/") + ("/__init__.py" if package else ".py")
+
+
+def _write_version(root: str, files: dict[str, str], layout: str) -> None:
+    for name, src in files.items():
+        path = os.path.join(root, _rel_path(name, files, layout))
+        os.makedirs(os.path.dirname(path), exist_ok=True)
+        with open(path, "w") as fh:
+            fh.write(src)
+
+
+def _import_version(files: dict[str, str]) -> types.ModuleType:
+    """A package with submodules is written to disk and imported by CPython's own import system."""
+    tops = {k.split(".")[0] for k in files}
+
+    def purge() -> None:
+        for name in [n for n in sys.modules if n.split(".")[0] in tops]:
+            del sys.modules[name]
+
+    root = tempfile.mkdtemp(prefix="vfc10py-")
+    try:
+        _write_version(root, files, "file")
+        purge()
+        sys.path.insert(0, root)
+        importlib.invalidate_caches()
+        try:
+            main = importlib.import_module(main_name(files))
+            for name in files:  # a submodule nothing imports is still importable by a caller
+                importlib.import_module(name)
+            return main
+        finally:
+            sys.path.remove(root)
+            purge()
+    finally:
+        shutil.rmtree(root, ignore_errors=True)
 
 
 def exec_version(files: dict[str, str]) -> types.ModuleType:
     """Really import one version (helper first); returns the main module."""
+    if any("." in k for k in files):
+        return _import_version(files)
     saved = {k: sys.modules.get(k) for k in files}
     try:
         for name in sorted(files, key=lambda k: not k.startswith(HELPER)):
@@ -356,13 +419,20 @@ def exec_version(files: dict[str, str]) -> types.ModuleType:
                 sys.modules[k] = v
 
 
-def public_surface(mod: types.ModuleType) -> dict[str, dict]:
-    """path below the main module -> what CPython resolves it to (function object, callable as seen by a caller)."""
+def module_surface(mod: types.ModuleType, source: str, prefix: str = "") -> dict[str, dict]:
+    """path below the main module -> what CPython resolves it to (function object, callable as seen by a caller).
+
+    Public names of the module: ``__all__`` when it has one; otherwise every underscore-free name of its namespace that an
+    explicit import statement did not bind (so: what it defines itself and what a ``from x import *`` put there).
+    """
     out: dict[str, dict] = {}
+    explicit = {(a.asname or a.name).split(".")[0] for node in ast.walk(ast.parse(source))
+                if isinstance(node, (ast.Import, ast.ImportFrom)) for a in node.names if a.name != "*"}
     if hasattr(mod, "__all__"):
         names = list(mod.__all__)
     else:
-        names = [n for n, v in vars(mod).items() if not n.startswith("_") and getattr(v, "__module__", None) == mod.__name__]
+        names = [n for n, v in vars(mod).items()
+                 if not n.startswith("_") and n not in explicit and not isinstance(v, types.ModuleType)]
 
     def walk(cls: type, path: str, depth: int) -> None:
         seen = set()
@@ -386,10 +456,50 @@ def public_surface(mod: types.ModuleType) -> dict[str, dict]:
 
     for n in names:
         v = getattr(mod, n, None)
+        before = set(out)
         if isinstance(v, type):
-            walk(v, n, 0)
+            walk(v, prefix + n, 0)
         elif inspect.isfunction(v):
-            out[n] = {"func": v, "call": v, "owner": None, "definers": [], "own_path": norm_path(f"{mod.__name__}.{n}")}
+            out[prefix + n] = {"func": v, "call": v, "owner": None, "definers": [], "own_path": norm_path(f"{mod.__name__}.{n}")}
+        for key in set(out) - before:  # bound here by a wildcard import: neither defined nor explicitly imported in this module
+            out[key]["star"] = getattr(v, "__module__", mod.__name__) != mod.__name__ and n not in explicit
+    return out
+
+
+def enclosing_blocks(func, files: dict[str, str]) -> list[str]:  # noqa: ANN001
+    """Source text of the headers of the compound statements (if / try) a definition sits in, innermost last."""
+    source = files.get(func.__module__)
+    if source is None:
+        return []
+    found: list[str] = []
+
+    def descend(node: ast.AST, trail: list[str]) -> None:
+        for child in ast.iter_child_nodes(node):
+            if isinstance(child, (ast.FunctionDef, ast.AsyncFunctionDef)) and child.name == func.__name__ and \
+                    func.__code__.co_firstlineno in (child.lineno, *(d.lineno for d in child.decorator_list)):
+                found[:] = trail
+            elif isinstance(child, ast.If):
+                descend(child, [*trail, "if " + ast.unparse(child.test)])
+            elif isinstance(child, ast.Try):
+                descend(child, [*trail, "try"])
+            elif isinstance(child, (ast.ClassDef, ast.ExceptHandler)):
+                descend(child, trail)
+
+    descend(ast.parse(source), [])
+    return found
+
+
+def public_surface(mod: types.ModuleType, files: dict[str, str]) -> dict[str, dict]:
+    """The public module and every submodule of it that is reachable through underscore-free names."""
+    main = main_name(files)
+    out = module_surface(mod, files[main])
+    for name in files:
+        parts = name.split(".")
+        if len(parts) > 1 and parts[0] == main and not any(p.startswith("_") for p in parts[1:]):
+            sub = mod
+            for part in parts[1:]:
+                sub = getattr(sub, part)
+            out.update(module_surface(sub, files[name], ".".join(parts[1:]) + "."))
     return out
 
 
@@ -459,17 +569,9 @@ class Seen:
         self.kind, self.path, self.param = kind, norm_path(path), param
 
 
-def _write_version(root: str, files: dict[str, str], layout: str) -> None:
-    for name, src in files.items():
-        rel = f"{name}/__init__.py" if layout == "package" else f"{name}.py"
-        os.makedirs(os.path.dirname(os.path.join(root, rel)), exist_ok=True)
-        with open(os.path.join(root, rel), "w") as fh:
-            fh.write(src)
-
-
 def _load_with(loader, files: dict[str, str], resolve: bool):  # noqa: ANN001, ANN202
     main = None
-    for name in sorted(files, key=lambda k: not k.startswith(HELPER)):  # what the public module imports from comes first
+    for name in sorted((k for k in files if "." not in k), key=lambda k: not k.startswith(HELPER)):  # imported-from first
         main = loader.load(name)
     if resolve:
         loader.resolve_aliases()
@@ -491,7 +593,8 @@ def _git_repo(case: dict, root: str) -> tuple[str, dict]:
     git("commit", "-q", "-m", "v1")
     git("tag", "v1")
     for name in case["old"]:
-        shutil.rmtree(os.path.join(repo, name))
+        if "." not in name:
+            shutil.rmtree(os.path.join(repo, name))
     _write_version(repo, case["new"], "package")
     return repo, env
 
@@ -592,8 +695,12 @@ def observe(case: dict, rec) -> list[Seen]:  # noqa: ANN001, C901, PLR0912, PLR0
         rec.count("check_cli_runs")
         if proc.returncode not in (0, 1) or proc.returncode != (1 if found else 0):
             raise AssertionError(f"`griffe check` exited {proc.returncode} with {len(found)} breakage line(s): {proc.stderr[-300:]}")
-        # <file>:<line>: <path below the module>(<parameter>): <kind>: ...   (these cases consist of the one module ``main``)
-        return [Seen(m["kind"].strip(), f"{main}.{m['rel']}", m["param"]) for m in found]
+        # <file>:<line>: <path below that file's module>(<parameter>): <kind>: ...
+        out = []
+        for m in found:
+            module = re.sub(r"(/__init__)?\.py$", "", m["file"]).replace("/", ".")
+            out.append(Seen(m["kind"].strip(), module if m["rel"] == "<module>" else f"{module}.{m['rel']}", m["param"]))
+        return out
     finally:
         shutil.rmtree(root, ignore_errors=True)
 
@@ -727,9 +834,112 @@ def gen_dataclasses(rng: random.Random, sigs, nsig: int) -> dict:  # noqa: ANN00
     raise AssertionError("no dataclass chain CPython accepts in 200 draws")
 
 
+# ------------------------------------------------------------------------------------------
+# Where the compared functions live and how they reach the public surface: definitions inside blocks CPython really
+# executes (``if`` / ``else`` / ``try`` / ``except`` at module or class level, every spelling of the type-checking guard
+# and its negation, version tests, compound conditions), in private submodules of a package, re-exported by explicit
+# imports, wildcard imports (source module with or without ``__all__``) and chains of them.  No block that does not run
+# defines the same name, so what static analysis can know and what CPython does coincide; CPython's import system decides.
+#   (template, imports it needs); {B} = the block that runs, {X} = a block that does not
+RUN_BLOCKS = [
+    ("{B}", ()),
+    ("{B}", ()),
+    ("if True:\n{B}", ()),
+    ("if not TYPE_CHECKING:\n{B}", ("from typing import TYPE_CHECKING",)),
+    ("if not typing.TYPE_CHECKING:\n{B}", ("import typing",)),
+    ("if not t.TYPE_CHECKING:\n{B}", ("import typing as t",)),
+    ("if TYPE_CHECKING:\n{X}\nelse:\n{B}", ("from typing import TYPE_CHECKING",)),
+    ("if typing.TYPE_CHECKING:\n{X}\nelse:\n{B}", ("import typing",)),
+    ("if sys.version_info >= (3, 8):\n{B}", ("import sys",)),
+    ("if sys.version_info >= (3, 8):\n{B}\nelse:\n{X}", ("import sys",)),
+    ("if sys.version_info < (3, 0):\n{X}\nelse:\n{B}", ("import sys",)),
+    ("if sys.version_info >= (3, 8) or typing.TYPE_CHECKING:\n{B}", ("import sys", "import typing")),
+    ("if typing.TYPE_CHECKING or sys.version_info >= (3, 8):\n{B}", ("import sys", "import typing")),
+    ("if sys.version_info >= (3, 8) and not typing.TYPE_CHECKING:\n{B}", ("import sys", "import typing")),
+    ("try:\n{B}\nexcept ImportError:\n{X}", ()),
+    ("try:\n    import vf_no_such_module_\nexcept ImportError:\n{B}", ()),
+    ("try:\n    pass\nfinally:\n{B}", ()),
+    ("if sys.version_info >= (3, 8):\n    if not typing.TYPE_CHECKING:\n{BB}", ("import sys", "import typing")),
+]
+DEAD_BODIES = ["pass", "from typing import Any", "_unused = 0"]
+
+
+def _in_block(definition: str, block: int, dead: str) -> tuple[str, tuple]:
+    template, needs = RUN_BLOCKS[block]
+    if template == "{B}":
+        return definition, needs
+    return (template.replace("{BB}", textwrap.indent(definition, "        ").rstrip("\n"))
+            .replace("{B}", textwrap.indent(definition, "    ").rstrip("\n")).replace("{X}", "    " + dead)) + "\n", needs
+
+
+def gen_exported(rng: random.Random, sigs, breaking: list[list[int]]) -> dict:  # noqa: ANN001, C901
+    """Package ``m`` with 1..3 submodules in a re-export chain; functions / a class defined somewhere along the chain."""
+    nsig = len(sigs)
+    depth = rng.choice([1, 1, 2, 2, 3])
+    mods = [MAIN] + [f"{MAIN}.{'_' if rng.random() < 0.85 else ''}{'ijk'[d]}" for d in range(depth)]  # mods[d] imports from mods[d+1]
+    objects = []
+    for name in [rng.choice(["g", "K"]), *rng.sample(["h", "_p"], rng.choice([0, 0, 1, 1, 2]))]:
+        so = rng.randrange(nsig)
+        r = rng.random()
+        sn = so if r < 0.1 else (rng.choice(breaking[so]) if breaking[so] and r < 0.9 else rng.randrange(nsig))
+        block_old = rng.randrange(len(RUN_BLOCKS))
+        objects.append({"name": name, "home": rng.randrange(1, depth + 1) if rng.random() < 0.9 else 0, "old": so, "new": sn,
+                        "block": {"old": block_old, "new": block_old if rng.random() < 0.85 else rng.randrange(len(RUN_BLOCKS))},
+                        "dead": rng.choice(DEAD_BODIES),
+                        "inner": rng.random() < 0.5})  # for the class: the block is around the method instead of the class
+    hops = [{"star": rng.random() < 0.65, "relative": rng.random() < 0.5} for _ in range(depth)]  # mods[d] <- mods[d+1]
+    has_all = [rng.random() < 0.4 for _ in range(depth + 1)]
+    has_all[0] = has_all[0] or not hops[0]["star"]  # explicitly imported names are public only when listed
+    private_listed = [rng.random() < 0.3 for _ in range(depth + 1)]
+    if rng.random() < 0.04:  # an untouched copy
+        for o in objects:
+            o["new"], o["block"]["new"] = o["old"], o["block"]["old"]
+    case = {}
+    for ver in ("old", "new"):
+        files: dict[str, str] = {}
+        importable: list[str] = []  # names bound in the module below
+        starred: list[str] = []  # names a wildcard import from the module below binds (CPython: its __all__, else underscore-free)
+        for d in range(depth, -1, -1):
+            lines, needs, body, bound = [], [], [], []
+            if d < depth:
+                src = ("." + mods[d + 1].split(".")[-1]) if hops[d]["relative"] else mods[d + 1]
+                if hops[d]["star"]:
+                    lines.append(f"from {src} import *")
+                    bound += starred
+                elif importable:
+                    lines.append(f"from {src} import {', '.join(importable)}")
+                    bound += importable
+            for o in objects:
+                if o["home"] != d:
+                    continue
+                if o["name"] == "K":
+                    method = render_def(sigs[o[ver]], "f", "inst")
+                    if o["inner"]:
+                        inner, need = _in_block(method, o["block"][ver], o["dead"])
+                        text = "class K:\n" + textwrap.indent(inner, "    ")
+                    else:
+                        text, need = _in_block("class K:\n" + textwrap.indent(method, "    "), o["block"][ver], o["dead"])
+                else:
+                    text, need = _in_block(render_def(sigs[o[ver]], o["name"], "plain"), o["block"][ver], o["dead"])
+                needs += list(need)
+                body.append(text)
+                bound.append(o["name"])
+            bound = list(dict.fromkeys(bound))
+            if has_all[d]:
+                listed = [n for n in bound if not n.startswith("_") or private_listed[d]]
+                lines.append(f"__all__ = {listed!r}")
+            importable = bound
+            starred = listed if has_all[d] else [n for n in bound if not n.startswith("_")]
+            files[mods[d]] = "\n".join([*dict.fromkeys(needs), *lines]) + "\n\n" + "\n".join(body)
+        case[ver] = files
+    for ver in ("old", "new"):
+        exec_version(case[ver])  # CPython's import system must accept both versions
+    return case
+
+
 def with_load_mode(rng: random.Random, case: dict, *, hooks_needed: bool, expensive: dict) -> dict:
     """Decide how the two versions of ``case`` reach the finder (see LOAD_MODES); the decision is part of the literal case."""
-    single = all(len(case[ver]) == 1 for ver in ("old", "new"))
+    single = all(len({k.split(".")[0] for k in case[ver]}) == 1 for ver in ("old", "new"))
     modes = ["fresh", "shared-ext", "shared-ext", "shared-ext-rev", "shared-loader"] + ([] if hooks_needed else ["visit"])
     if single:  # check() loads one package; what it imports from elsewhere would stay unresolved there
         for mode in ("check-api", "check-cli"):
@@ -741,7 +951,8 @@ def with_load_mode(rng: random.Random, case: dict, *, hooks_needed: bool, expens
                resolve=rng.random() < 0.5)
     if mode == "shared-loader":  # one loader cannot hold two modules of the same name: the versions get their own
         for ver, suffix in (("old", "_a"), ("new", "_b")):
-            out[ver] = {name + suffix: re.sub(rf"\b{HELPER}\b", HELPER + suffix, src) for name, src in case[ver].items()}
+            out[ver] = {re.sub(r"^(m|vfh)(?=\.|$)", rf"\1{suffix}", name):
+                        re.sub(r"(?m)^(\s*(?:from|import)\s+)(m|vfh)\b", rf"\g<1>\g<2>{suffix}", src) for name, src in case[ver].items()}
     return out
 
 
@@ -768,7 +979,7 @@ def classify_placed(key: str, o: dict, n: dict | None, surf_o: dict, surf_n: dic
 
 def run_placed(rec, case: dict) -> None:  # noqa: ANN001, C901, PLR0912, PLR0915
     old_py, new_py = exec_version(case["old"]), exec_version(case["new"])
-    surf_o, surf_n = public_surface(old_py), public_surface(new_py)
+    surf_o, surf_n = public_surface(old_py, case["old"]), public_surface(new_py, case["new"])
     mode = case.get("load", "visit")
     identical = _unversioned(case["old"]) == _unversioned(case["new"])
     try:
@@ -808,6 +1019,19 @@ def run_placed(rec, case: dict) -> None:  # noqa: ANN001, C901, PLR0912, PLR0915
             any_broken = True
             rec.count("placed_paths_with_broken_call")
             rec.count(f"load_mode_{mode}_paths_with_broken_call")
+            blocks = enclosing_blocks(o["func"], case["old"])
+            if blocks:
+                rec.count("paths_defined_in_conditional_block_with_broken_call")
+                if any("TYPE_CHECKING" in b for b in blocks):
+                    rec.count("paths_defined_under_type_checking_condition_with_broken_call")
+                    if any("TYPE_CHECKING" in b and b not in ("if TYPE_CHECKING", "if typing.TYPE_CHECKING") for b in blocks):
+                        rec.count("paths_defined_under_compound_type_checking_condition_with_broken_call")
+            if o.get("star"):
+                rec.count("paths_through_wildcard_reexport_with_broken_call")
+                if blocks:
+                    rec.count("paths_conditional_and_wildcard_reexported_with_broken_call")
+            if any(part.startswith("_") for part in o["func"].__module__.split(".")[1:]):
+                rec.count("paths_defined_in_private_submodule_with_broken_call")
             if key.endswith(".__init__"):
                 import dataclasses
 
@@ -990,8 +1214,11 @@ def run_shard(spec: dict, rec) -> None:  # noqa: ANN001
         breaking = [[j for j in range(len(sigs)) if masks[i] & ~masks[j]] for i in range(len(sigs))]
         expensive = {"check-api": spec["check_api"], "check-cli": spec["check_cli"]}
         for _ in range(spec["cases"]):
-            if rng.random() < 0.55:
+            r = rng.random()
+            if r < 0.4:
                 case = with_load_mode(rng, gen_dataclasses(rng, sigs, len(sigs)), hooks_needed=True, expensive=expensive)
+            elif r < 0.7:  # wildcard imports are expanded by the loader only
+                case = with_load_mode(rng, gen_exported(rng, sigs, breaking), hooks_needed=True, expensive=expensive)
             else:
                 case = with_load_mode(rng, gen_placed(rng, sigs, breaking), hooks_needed=False, expensive=expensive)
             run_placed(rec, case)
